@@ -23,7 +23,7 @@ fn opt(v: Option<Vec<i64>>) -> String
 
 /// A mis-sized call (the property says nothing about its result; the model does): executed under catch_unwind.
 #[derive(Clone)]
-struct Fault { kind: &'static str, idxs: Vec<usize>, rows: usize, cols: usize, data: Vec<i64> }
+struct Fault { kind: &'static str, idxs: Vec<usize>, rows: usize, cols: usize, data: Vec<i64>, lists: Vec<Vec<usize>> }
 
 impl Fault
 {
@@ -33,6 +33,9 @@ impl Fault
         match self.kind
         {
             "xinplace" => format!("xinplace {} | {}", join(&self.idxs), join(&self.data)),
+            // `newhist a | c | l1 , l2 , ...`: Permutation::new(a), then c calls of Permutation::new cycling through l1, l2, ...
+            "newhist" => format!("newhist {} | {} | {}", join(&self.idxs), self.rows,
+                                 self.lists.iter().map(|l| join(l)).collect::<Vec<_>>().join(" , ")),
             "xtransform" => format!("xtransform {} | {} {} | {}", join(&self.idxs), self.rows, self.cols, join(&self.data)),
             k => format!("{} {} | {} | {}", k, join(&self.idxs), self.cols, join(&self.data))
         }
@@ -40,6 +43,12 @@ impl Fault
     /// perform the call on the current thread; answer `ok <result>` or `panic`
     fn run(&self) -> String
     {
+        if self.kind == "newhist"
+        {
+            let _ = catch(|| Permutation::new(self.idxs.clone()).is_ok());
+            for i in 0..self.rows { let l = self.lists[i % self.lists.len()].clone(); let _ = catch(move || Permutation::new(l).is_ok()); }
+            return "-".to_string();
+        }
         let f = self.clone();
         opt(catch(move || {
             let p = Permutation::new(f.idxs.clone()).unwrap();
@@ -62,6 +71,15 @@ impl Fault
             }
         }))
     }
+}
+
+thread_local! { static SESSION: std::cell::Cell<Option<(usize, usize)>> = std::cell::Cell::new(None); }
+
+/// Inside a same-thread session every request is tagged `@seq <session> <k> @`: it is the k-th request answered on the
+/// session's thread, its history are the requests `@seq <session> 0..k-1` on the lines before it.
+fn seq_prefix() -> String
+{
+    SESSION.with(|c| match c.get() { None => String::new(), Some((sid, k)) => { c.set(Some((sid, k + 1))); format!("@seq {} {} @ ", sid, k) } })
 }
 
 /// Run one operation: directly (no history), or - with a history - on a FRESH thread on which the mis-sized call is made
@@ -95,7 +113,7 @@ fn ops_on_ctx(out0: &mut Out, idxs: &[usize], rng: &mut SplitMix64, pre: Option<
     let vs = join(&v);
     let prefix = match pre { None => String::new(), Some(f) => format!("@after {} @ ", f.req()) };
     struct Pfx<'a> { out: &'a mut Out, prefix: String }
-    impl<'a> Pfx<'a> { fn case(&mut self, req: &str, ans: &str) { let r = format!("{}{}", self.prefix, req); self.out.case(&r, ans); } }
+    impl<'a> Pfx<'a> { fn case(&mut self, req: &str, ans: &str) { let r = format!("{}{}{}", seq_prefix(), self.prefix, req); self.out.case(&r, ans); } }
     let mut out = Pfx { out: out0, prefix };
     let out = &mut out;
     let full = level == Level::Full;
@@ -404,15 +422,15 @@ fn fault_stream(out: &mut Out, rng: &mut SplitMix64)
         for &l in lens.iter()
         {
             let d = |rng: &mut SplitMix64, k: usize| -> Vec<i64> { (0..k).map(|_| rng.range(-99, 99)).collect() };
-            faults.push(Fault { kind: "xinplace", idxs: fidx.clone(), rows: 0, cols: 0, data: d(rng, l) });
+            faults.push(Fault { kind: "xinplace", idxs: fidx.clone(), rows: 0, cols: 0, data: d(rng, l), lists: vec![] });
             for &(src, dst) in [(l, n), (n, l), (l, l), (l, n + 2)].iter()
             {
-                faults.push(Fault { kind: "xinto", idxs: fidx.clone(), rows: 0, cols: dst, data: d(rng, src) });
-                faults.push(Fault { kind: "xinvinto", idxs: fidx.clone(), rows: 0, cols: dst, data: d(rng, src) });
+                faults.push(Fault { kind: "xinto", idxs: fidx.clone(), rows: 0, cols: dst, data: d(rng, src), lists: vec![] });
+                faults.push(Fault { kind: "xinvinto", idxs: fidx.clone(), rows: 0, cols: dst, data: d(rng, src), lists: vec![] });
             }
             for &(r, c) in [(l, l), (n, l), (l, n)].iter()
             {
-                if r * c <= 400 { faults.push(Fault { kind: "xtransform", idxs: fidx.clone(), rows: r, cols: c, data: d(rng, r * c) }); }
+                if r * c <= 400 { faults.push(Fault { kind: "xtransform", idxs: fidx.clone(), rows: r, cols: c, data: d(rng, r * c), lists: vec![] }); }
             }
         }
         // all in-place faults (the only operation with a multi-step loop over caller data) and a sample of the others
@@ -425,6 +443,93 @@ fn fault_stream(out: &mut Out, rng: &mut SplitMix64)
             // ... and, immediately after it on one thread, each normal operation on the other object
             ops_on_ctx(out, &tidx, rng, Some(f), Level::Full, true);
         }
+    }
+}
+
+// ------------------------------------------------------------------------------------------------------------------
+// long histories of Permutation::new on ONE thread (rejected calls included), then normal use of late objects
+
+fn new_case(out: &mut Out, pre: Option<&Fault>, idxs: &[usize])
+{
+    let l = idxs.to_vec();
+    let a = match exec(pre, move || Permutation::new(l)) { None => "panic".to_string(), Some(r) => show_new(&r) };
+    let prefix = match pre { None => String::new(), Some(f) => format!("@after {} @ ", f.req()) };
+    out.case(&format!("{}{}new {}", seq_prefix(), prefix, join(idxs)), &a);
+}
+
+/// a small list: valid, with a repeated element, with an out-of-range element, or empty
+fn small_list(rng: &mut SplitMix64, n: usize) -> Vec<usize>
+{
+    let mut l: Vec<usize> = (0..n).collect();
+    rng.shuffle(&mut l);
+    match rng.below(6)
+    {
+        0 | 1 if n >= 2 => { let i = rng.below(n as u64) as usize; let j = (i + 1 + rng.below(n as u64 - 1) as usize) % n; l[i] = l[j]; },   // repeated
+        2 if n >= 2 => { let x = l[0]; for y in l.iter_mut() { *y = x; } },                                                   // all equal
+        3 => { if rng.below(3) == 0 { l.clear(); } else if n >= 1 { let i = rng.below(n as u64) as usize; l[i] = n + rng.below(3) as usize; } },
+        _ => {}
+    }
+    l
+}
+
+fn history_stream(out: &mut Out, rng: &mut SplitMix64)
+{
+    // (1) self-contained: new(big), then c calls cycling through a few small lists, then a request - on a fresh thread each
+    let counts: &[usize] = if thorough() { &[1, 100, 253, 254, 255, 256, 257, 508, 509, 510, 511, 512, 763, 764, 765, 1019, 1020, 1274, 1275] }
+                           else { &[253, 254, 255, 256, 509, 510, 764] };
+    for (ci, &c) in counts.iter().enumerate()
+    {
+        for rep in 0..(if thorough() { 4 } else { 2 })
+        {
+            let b = rng.range(5, 14) as usize;
+            let mut big: Vec<usize> = (0..b).collect(); rng.shuffle(&mut big);
+            let s = 1 + rng.below(b as u64 - 2) as usize;
+            // small lists: all of one size s (rep even) or of mixed sizes < b; valid and rejected ones
+            let lists: Vec<Vec<usize>> = (0..1 + rng.below(4)).map(|_| { let n = if rep % 2 == 0 { s } else { 1 + rng.below(b as u64 - 1) as usize };
+                                                                         let l = small_list(rng, n); if l.is_empty() { vec![0] } else { l } }).collect();
+            let h = Fault { kind: "newhist", idxs: big, rows: c, cols: 0, data: vec![], lists };
+            // afterwards: a valid permutation reaching beyond the small ones
+            let m = rng.range(s as i64 + 1, b as i64 + 2) as usize;
+            let mut t: Vec<usize> = (0..m).collect(); rng.shuffle(&mut t);
+            if (ci + rep) % 3 == 0 { t = (0..m).map(|i| (i + 1) % m).collect(); }
+            new_case(out, Some(&h), &t);
+            ops_on_ctx(out, &t, rng, Some(&h), Level::Vec, true);
+        }
+    }
+    // (2) sessions: one thread, several hundred consecutive requests; every answer is compared
+    let lens: Vec<usize> = if thorough() { vec![254, 255, 256, 510, 511, 253, 509, 764, 765, 1019, 1020, 200, 333, 700, 1200, 2000] }
+                           else { vec![254, 255, 256, 510, 511, 200 + rng.below(400) as usize, 600 + rng.below(600) as usize] };
+    for (sid, &len) in lens.iter().enumerate()
+    {
+        let same_size = sid < 5 || sid % 2 == 0;
+        std::thread::scope(|sc| { sc.spawn(|| {
+            SESSION.with(|c| c.set(Some((sid, 0))));
+            let b = if same_size { rng.range(3, 9) as usize } else { rng.range(12, 40) as usize };
+            // a few big valid ones first
+            let p = 1 + rng.below(3) as usize;
+            for _ in 0..p { let mut big: Vec<usize> = (0..b).collect(); rng.shuffle(&mut big); new_case(out, None, &big); }
+            // `len` calls from a small pool (same size as the big ones, mostly rejected early / or smaller sizes), so that
+            // most positions are not touched for a long time
+            let pool: Vec<Vec<usize>> = (0..2 + rng.below(5)).map(|_| {
+                if same_size { let mut l = small_list(rng, b); if rng.below(3) != 0 && l.len() >= 2 { let x = l[0]; l[1] = x; } l }
+                else { let n = 1 + rng.below(8) as usize; small_list(rng, n) } }).collect();
+            let already = p;
+            for i in 0..len.saturating_sub(already + 0)
+            {
+                // now and then a valid one of intermediate size
+                if !same_size && i % 97 == 96 { let n = rng.range(2, b as i64) as usize; let mut l: Vec<usize> = (0..n).collect(); rng.shuffle(&mut l); new_case(out, None, &l); }
+                else { let l: &Vec<usize> = rng.pick(&pool[..]); new_case(out, None, l); }
+            }
+            // late big valid ones: new, then every vector operation (each of which builds its object anew on this thread)
+            for j in 0..4
+            {
+                let n = if j % 2 == 0 { b } else { rng.range(2, b as i64 + 3) as usize };
+                let mut t: Vec<usize> = (0..n).collect(); rng.shuffle(&mut t);
+                new_case(out, None, &t);
+                if j < 2 { ops_on_ctx(out, &t, rng, None, Level::Vec, true); }
+            }
+            SESSION.with(|c| c.set(None));
+        }).join().unwrap(); });
     }
 }
 
@@ -518,6 +623,7 @@ fn main()
     }
     structured_stream(&mut out, &mut rng);
     fault_stream(&mut out, &mut rng);
+    history_stream(&mut out, &mut rng);
     let n = out.finish();
     eprintln!("c17: {} cases", n);
 }
